@@ -640,6 +640,12 @@ class Kit:
                         return value
                     elif op == "execute":
                         kit.submit(step[1], "execute")
+                    elif op == "barrier":
+                        # wait until step[2] payloads have arrived at the barrier step[1]
+                        shared = kit.env.shared
+                        shared[step[1]] = shared.get(step[1], 0) + 1
+                        kit.env.sched.wait_until(
+                            lambda: shared[step[1]] >= step[2], kind="barrier")
                     elif op == "repeat-adopt":
                         # (thread payloads) keep adopting copies of a payload: step[2] seconds
                         # apart, step[3] times
